@@ -24,6 +24,7 @@ import (
 	"errors"
 	"net/http"
 	"net/http/httputil"
+	"strconv"
 	"strings"
 	"time"
 
@@ -91,7 +92,8 @@ func (rt *RoundTripper) cacheResponse(req *http.Request, resp *http.Response) {
 	}
 
 	if expires.IsZero() {
-		if rt.DefaultCacheTTL == 0 {
+		// an Expires header which cannot be parsed (e.g. "0") means "already expired" (RFC 7234, 5.3)
+		if rt.DefaultCacheTTL == 0 || hasInvalidExpires(resp) {
 			return
 		}
 
@@ -103,7 +105,8 @@ func (rt *RoundTripper) cacheResponse(req *http.Request, resp *http.Response) {
 		return
 	}
 
-	ttl := time.Until(expires)
+	// the response may have aged on its way (RFC 7234, 4.2.3): what is left is the freshness lifetime minus that age
+	ttl := time.Until(expires) - currentAge(resp)
 	if ttl <= 0 {
 		// already stale (max-age=0, Expires in the past): must not be stored
 		return
@@ -112,6 +115,34 @@ func (rt *RoundTripper) cacheResponse(req *http.Request, resp *http.Response) {
 	ctx := req.Context()
 	cch := cache.Ctx(ctx)
 	cch.Set(ctx, cacheKey(req), respDump, ttl) //nolint:errcheck
+}
+
+func hasInvalidExpires(resp *http.Response) bool {
+	value := resp.Header.Get("Expires")
+	if len(value) == 0 {
+		return false
+	}
+
+	_, err := http.ParseTime(value)
+
+	return err != nil
+}
+
+// currentAge is the larger of the Age header and the time passed since the response was generated (Date header).
+func currentAge(resp *http.Response) time.Duration {
+	var age time.Duration
+
+	if seconds, err := strconv.ParseInt(strings.TrimSpace(resp.Header.Get("Age")), 10, 64); err == nil && seconds > 0 {
+		age = time.Duration(seconds) * time.Second
+	}
+
+	if date, err := http.ParseTime(resp.Header.Get("Date")); err == nil {
+		if apparent := time.Duration(time.Now().Unix()-date.Unix()) * time.Second; apparent > age {
+			age = apparent
+		}
+	}
+
+	return age
 }
 
 func cacheKey(req *http.Request) string {
